@@ -226,7 +226,7 @@ def check_C13(rep, fl):
     flds = dict(zip(e[4], e[3])) if e[0] == "agg" else {}
     okz = is_call(flds.get("bitset", ()), "from_elem") and flds["bitset"][2][0] == ("const", 0, "u64")
     rep.check(okz, "R13.7", fl, bn, "zeroed", "a new Bloom filter is vec![0; words]", "Bloom::new builds bitset %s" % show(flds.get("bitset", ())))
-    tn = facts.body(TLFU + "::new")
+    tn = facts.flat(facts.body(TLFU + "::new"))
     aggs = [norm(tn.rvalue_expr(st["rv"], True)) for bi in tn.live_blocks() for st in tn.blocks[bi]["stmts"]
             if st["k"] == "assign" and st["rv"]["k"] == "agg" and st["rv"].get("adt", "").endswith("TinyLFU")]
     okw = len(aggs) == 1 and dict(zip(aggs[0][4], aggs[0][3])).get("w") == ("const", 0, "usize")
@@ -309,22 +309,25 @@ def check_tinylfu(rep, fl):
     ctr = norm(F(V("self"), "ctr"))
     kh = V("kh")
     # estimate = ctr.estimate(kh) + (1 if doorkeeper.contains(kh))
-    est = facts.body(TLFU + "::estimate")
-    at, entry = dataflow(est)
-    hits_l = [l for l, n in est.local_name.items() if not (1 <= l <= est.arg_count)]
-    ok = False
-    ret = norm(return_expr(est, expand=False))
-    if ret[0] == "var":
-        hv = ret
-        l = est.name_local[hv[1]]
-        defs = est.defs.get(l, [])
-        exprs = [norm(est.def_expr(a, b, True)) for a, b in defs]
-        base = [e for e in exprs if is_call(e, "CountMinSketch::estimate") and norm(e[2][0]) == ctr and e[2][1] == kh]
-        incs = [(a, b) for (a, b), e in zip(defs, exprs) if e == norm(("bin", "Add", hv, ("const", 1, "i64")))]
-        if len(base) == 1 and len(incs) == 1 and len(defs) == 2:
-            want = ("atom", ("call", BLOOM + "::contains", (dk, kh)))
-            ok = all(feval(want, s) is True for s in at.get(incs[0], set()))
-            # and on the false edge no increment: only one +1 definition, guarded
+    est = facts.flat(facts.body(TLFU + "::estimate"))
+    base = norm(call(CMS + "::estimate", ctr, kh))
+    seen_dk = norm(call(BLOOM + "::contains", dk, kh))
+    paths = sym_paths(est)
+    ok = bool(paths)
+    for lits, ret in paths or []:
+        if ret is None:
+            ok = False
+            continue
+        d = lin_sub(lin(ret), lin(base))
+        hit = [v for a, v in lits if a == seen_dk]
+        if hit:
+            # the bonus is exactly 1 on the path where the doorkeeper has seen the key
+            ok = ok and lin_key(d) == lin_key({1: 1} if hit[0] else {})
+        else:
+            # branch-free spelling: base + i64::from(contains(..)) / (contains(..) as i64)
+            rest = [t for t in d if t != 1]
+            ok = ok and len(rest) == 1 and d[rest[0]] == 1 and 1 not in d and \
+                (strip_casts(rest[0]) == seen_dk or ((is_call(rest[0], "From::from") or is_call(rest[0], "from") or is_call(rest[0], "Into::into")) and norm(rest[0][2][0]) == seen_dk))
     rep.check(ok, "R13.6", fl, est, "estimate", "estimate(kh) = ctr.estimate(kh) + 1 iff doorkeeper.contains(kh)", "TinyLFU::estimate is not sketch estimate plus the doorkeeper bonus")
     # increment: !contains_or_add(kh) => ctr.increment(kh); then try_reset on every path
     inc = facts.body(TLFU + "::increment")
@@ -406,7 +409,7 @@ def check_tinylfu(rep, fl):
     if it is not None:
         recv = it.source
         c = it.calls_to(TLFU + "::increment")
-        ok = is_call(recv, "iter") and recv[2][0] == V("khs") and len(c) == 1 and it.is_elem(it.body.call_args(c[0][1])[1]) and it.every_round([c[0][0]])
+        ok = iterates(it, V("khs")) and len(c) == 1 and it.is_elem(it.body.call_args(c[0][1])[1]) and it.every_round([c[0][0]])
     rep.check(ok, "R13.6", fl, b, "increments", "increments(khs) records every element", "increments does not call increment for every element of the batch")
 
 
